@@ -13,7 +13,8 @@ import time
 
 VERIF = os.path.dirname(os.path.dirname(os.path.abspath(__file__)))
 KNOWN = os.path.join(VERIF, "known_findings.json")
-MAX_VIOL_PER_TASK = 40
+MAX_VIOL_PER_TASK = 5000  # records kept per task in total
+MAX_VIOL_PER_GROUP = 4    # ... and per (clause, signature) group within a task
 
 
 class HarnessError(Exception):
@@ -77,12 +78,19 @@ class Acc:
         self.outcomes = collections.Counter()
         self.viol = []
         self.viol_dropped = 0
+        self._per_group = {}
         self.samples = []
         self.distinct = set()  # digests of distinct non-trivial cases (bounded use)
 
     def violation(self, *a, **k):
-        if len(self.viol) < MAX_VIOL_PER_TASK:
-            self.viol.append(viol(*a, **k))
+        # the cap is per (clause, signature) group, never per task: a frequent (e.g. known) violation must not be
+        # able to crowd a different one out of the record
+        v = viol(*a, **k)
+        key = json.dumps([v["clause"], v["sig"]], sort_keys=True, default=str)
+        n = self._per_group.get(key, 0)
+        self._per_group[key] = n + 1
+        if n < MAX_VIOL_PER_GROUP and len(self.viol) < MAX_VIOL_PER_TASK:
+            self.viol.append(v)
         else:
             self.viol_dropped += 1
 
